@@ -222,4 +222,214 @@ def r18_6(ctx):
     return out
 
 
-RULES = [r18_1, r18_2, r18_3, r18_4, r18_5, r18_6]
+class Sym(StandIn):
+    """symbolic number: polynomial with rational coefficients in named atoms (exact arithmetic for the interpreter)"""
+
+    def __init__(self, p):
+        self.p = p
+
+    @staticmethod
+    def lift(x):
+        from verifkit import poly
+        return x if isinstance(x, Sym) else Sym(poly.const(x))
+
+    def __add__(self, o):
+        from verifkit import poly
+        return Sym(poly.add(self.p, Sym.lift(o).p))
+
+    __radd__ = __add__
+
+    def __sub__(self, o):
+        from verifkit import poly
+        return Sym(poly.sub(self.p, Sym.lift(o).p))
+
+    def __rsub__(self, o):
+        from verifkit import poly
+        return Sym(poly.sub(Sym.lift(o).p, self.p))
+
+    def __mul__(self, o):
+        from verifkit import poly
+        return Sym(poly.mul(self.p, Sym.lift(o).p))
+
+    __rmul__ = __mul__
+
+    def __neg__(self):
+        from verifkit import poly
+        return Sym(poly.neg(self.p))
+
+    def __eq__(self, o):
+        return isinstance(o, (Sym, int, Fr)) and self.p == Sym.lift(o).p
+
+    def __hash__(self):
+        return hash(tuple(sorted(self.p.items())))
+
+
+def binom(n, k):
+    from math import comb
+    return comb(n, k)
+
+
+def r18_7(ctx):
+    """finite identity checks over the degrees 0..6 the property names (the interpreter evaluates the closed integer /
+    rational helper functions on every value of that finite domain; symbolic for Horner)"""
+    from verifkit import poly
+    out = Outcome("R18.7", "basis helpers for every degree 0..6: comb = binomial coefficient; bezier_caract_matrix = "
+                           "monomial coefficients of the Bernstein basis; horner_method = sum a_k x^k; linspace nodes",
+                  floor=5)
+    out.exhaustive = True
+    hook = (lambda rn, ev, c, n, r, a, k: True if n == "isinstance" else NotImplemented)
+    fc = ctx.fn("curve.Math.comb")
+    bad = []
+    try:
+        for n in range(0, 8):
+            for i in range(0, n + 1):
+                got = Runner(ctx, set(), hook, asserts=True).call_fn(fc, [n, i])
+                if got != binom(n, i):
+                    bad.append((n, i, got))
+        (out.bad if bad else out.ok)(fc.qname, f"comb differs from the binomial coefficient, e.g. comb{bad[0][:2]} = {bad[0][2]}"
+                                     if bad else "comb(n, i) = C(n, i) for 0 <= i <= n <= 7", where=fc.where())
+    except (Undecided, Raised) as ex:
+        out.undecided(fc.qname, str(ex), where=fc.where())
+    fm = ctx.fn("curve.Math.bezier_caract_matrix")
+
+    class Arr(StandIn):
+        def __init__(self, n, m):
+            self.rows = [[0] * m for _ in range(n)]
+
+        def __setitem__(self, ij, v):
+            self.rows[ij[0]][ij[1]] = v
+
+        def __getitem__(self, ij):
+            return self.rows[ij[0]][ij[1]] if isinstance(ij, tuple) else self.rows[ij]
+
+        def __iter__(self):
+            return iter(self.rows)
+
+    def hook_m(rn, ev, c, n, r, a, k):
+        if n == "isinstance":
+            return True
+        if n == "zeros":
+            return Arr(a[0][0], a[0][1])
+        return NotImplemented
+    try:
+        bad = []
+        for p_ in range(0, 7):
+            import verifkit.absrun as AR
+            mathcls = Obj("class:Math")
+            mathcls.__dict__["__caract_matrix"] = {}
+            AR.EXTRA_GLOBALS["Math"] = mathcls
+            try:
+                got = Runner(ctx, {fc.qname}, hook_m, asserts=True).call_fn(fm, [p_])
+            finally:
+                AR.EXTRA_GLOBALS.pop("Math", None)
+            # expected: B_{i,p}(u) = C(p,i) u^i (1-u)^(p-i); row i, column j = coefficient of u^(p-j)
+            for i in range(p_ + 1):
+                pol = poly.const(binom(p_, i))
+                for _ in range(i):
+                    pol = poly.mul(pol, poly.atom("u"))
+                for _ in range(p_ - i):
+                    pol = poly.mul(pol, poly.sub(poly.const(1), poly.atom("u")))
+                for j in range(p_ + 1):
+                    want = pol.get(("u",) * (p_ - j), 0)
+                    if got[i][j] != want:
+                        bad.append((p_, i, j, got[i][j], want))
+        (out.bad if bad else out.ok)(fm.qname, f"matrix entry [{bad[0][1]}][{bad[0][2]}] of degree {bad[0][0]} is {bad[0][3]}, "
+                                     f"the Bernstein basis gives {bad[0][4]}" if bad else
+                                     "rows = monomial coefficients of B_{i,p} for p = 0..6", where=fm.where())
+    except (Undecided, Raised, IndexError, TypeError) as ex:
+        out.undecided(fm.qname, str(ex), where=fm.where())
+    fh = ctx.fn("curve.Math.horner_method")
+    try:
+        x = Sym(poly.atom("x"))
+        coefs = [Sym(poly.atom(f"a{k}")) for k in (3, 2, 1, 0)]
+        got = Runner(ctx, set(), None).call_fn(fh, [x, tuple(coefs)])
+        want = poly.const(0)
+        for k in range(4):
+            term = poly.atom(f"a{k}")
+            for _ in range(k):
+                term = poly.mul(term, poly.atom("x"))
+            want = poly.add(want, term)
+        ok = isinstance(got, Sym) and got.p == want
+        (out.ok if ok else out.bad)(fh.qname, "a0 + a1 x + a2 x^2 + a3 x^3 (symbolic)" if ok else
+                                    f"horner_method([a3..a0]) = {poly.show(getattr(got, 'p', {}))}", where=fh.where())
+    except (Undecided, Raised) as ex:
+        out.undecided(fh.qname, str(ex), where=fh.where())
+    for name, want in (("closed_linspace", lambda n: tuple(Fr(k, n - 1) for k in range(n))),
+                       ("open_linspace", lambda n: tuple(Fr(2 * k + 1, 2 * n) for k in range(n)))):
+        fl = ctx.fn(f"curve.Math.{name}")
+        try:
+            bad = [n for n in range(2, 9) if tuple(Runner(ctx, set(), hook, asserts=True).call_fn(fl, [n])) != want(n)]
+            (out.bad if bad else out.ok)(fl.qname, f"nodes wrong for npts = {bad[:3]}" if bad else
+                                         "exact rational nodes for npts = 2..8", where=fl.where())
+        except (Undecided, Raised) as ex:
+            out.undecided(fl.qname, str(ex), where=fl.where())
+    return out
+
+
+def r18_8(ctx):
+    out = Outcome("R18.8", "IntegratePlanar.winding_number = sum of the chord contributions of consecutive sample points "
+                           "(npts samples by default) about the given centre; derivate = derivative matrix times the "
+                           "control points", floor=3)
+    fn = ctx.fn("curve.IntegratePlanar.winding_number")
+
+    class Cv(StandIn):
+        def __init__(self, npts):
+            self.npts, self.degree = npts, npts - 1
+
+        def eval(self, nodes):
+            return tuple(("pt", n) for n in nodes)
+    for nnodes, npts in ((None, 3), (None, 4), (6, 3)):
+        calls = []
+
+        def hook(rn, ev, call, name, recv, args, kwargs):
+            if name == "isinstance":
+                return True
+            if name == "closed_linspace":
+                return tuple(Fr(k, args[0] - 1) for k in range(args[0]))
+            if name == "winding_number_linear":
+                calls.append(tuple(args))
+                return Fr(1, 10)
+            return NotImplemented
+        try:
+            got = Runner(ctx, set(), hook, asserts=True).call_fn(fn, [Cv(npts), "C", nnodes])
+        except (Undecided, Raised) as ex:
+            out.undecided(fn.qname, str(ex), where=fn.where())
+            continue
+        n = nnodes or npts
+        want = [(("pt", Fr(k, n - 1)), ("pt", Fr(k + 1, n - 1)), "C") for k in range(n - 1)]
+        if calls != want:
+            out.bad(fn.qname, "chords are not the consecutive sample pairs covering [0, 1] about the given centre",
+                    where=fn.where(), detail=f"nnodes={nnodes}, npts={npts}: {len(calls)} chords {calls[:2]}")
+        elif got != Fr(n - 1, 10):
+            out.bad(fn.qname, "chord contributions are not simply added", where=fn.where())
+        else:
+            out.ok(fn.qname, f"nnodes={nnodes}, npts={npts}: {n - 1} consecutive chords summed", where=fn.where())
+    for q in ("curve.PlanarCurve.derivate", "curve.BezierCurve.derivate"):
+        fd = ctx.fn(q)
+        C = Obj("C", degree=3, ctrlpoints=("P",))
+        seen = {}
+
+        def hook2(rn, ev, call, name, recv, args, kwargs):
+            if name == "isinstance":
+                return True
+            if name == "non_rational_bezier":
+                seen["m"] = tuple(args)
+                return "MATRIX"
+            if name == "dot":
+                seen["dot"] = tuple(args)
+                return "NEWPTS"
+            if name == "__class__" or (isinstance(call.func, ast.Attribute) and call.func.attr == "__class__"):
+                seen["ctor"] = tuple(args)
+                return "CURVE"
+            return NotImplemented
+        try:
+            got = Runner(ctx, set(), hook2, asserts=True).call_fn(fd, [C, 2])
+            ok = got == "CURVE" and seen.get("m") == (3, 2) and seen.get("dot") == ("MATRIX", ("P",)) and seen.get("ctor") == ("NEWPTS",)
+            (out.ok if ok else out.bad)(q, "derivate(k) = class(D(degree, k) . ctrlpoints)" if ok else
+                                        f"derivative not built as matrix(degree, times) . ctrlpoints: {seen}", where=fd.where())
+        except (Undecided, Raised) as ex:
+            out.undecided(q, str(ex), where=fd.where())
+    return out
+
+
+RULES = [r18_1, r18_2, r18_3, r18_4, r18_5, r18_6, r18_7, r18_8]
